@@ -53,6 +53,7 @@ def check(rep: Report, ctx: Ctx) -> None:
     r58(rep, ctx)
     r59(rep, ctx)
     r510(rep, ctx)
+    r511(rep, ctx)
 
 
 # --------------------------------------------------------------------------
@@ -888,3 +889,34 @@ def r510(rep: Report, ctx: Ctx) -> None:
                          " -- after a rotation index i of this list "
                          "belongs to another path than index i of the "
                          "others (wrong alternatives are merged / popped)"))
+
+
+# --------------------------------------------------------------------------
+def r511(rep: Report, ctx: Ctx) -> None:
+    """A failed conversion must not leave an empty (or overwrite a good)
+    <job>.puml: the diagram text exists before the file is opened."""
+    rep.rule("R5.11", "the output file is opened for writing only after the "
+             "diagram text has been computed", 1)
+    fi = ctx.func("pv_to_puml_file")
+    gen = ctx.func("pv_to_puml_string")
+    withs = [w for w in ast.walk(fi.node) if isinstance(w, ast.With)
+             and any(isinstance(it.context_expr, ast.Call)
+                     and dotted(it.context_expr.func) == "open"
+                     for it in w.items)]
+    if len(withs) != 1:
+        raise AnalysisError(f"{fi.qualname}: expected one `with open(...)`")
+    w = withs[0]
+    inside = [c for st in w.body for c in ast.walk(st)
+              if isinstance(c, ast.Call)]
+    conv = [c for c in calls_in(ctx, fi, gen)]
+    bad = [c for c in conv if any(c is x for x in inside)]
+    cfg = ctx.cfg(fi)
+    before = [c for c in conv if c not in bad and cfg.dominates(
+        cfg.container(c), cfg.node(w))]
+    rep.ob("R5.11", "pv_to_puml_file: text first, then open(..., 'w')",
+           not bad and bool(before), fi=fi, node=bad[0] if bad else w,
+           detail=("the conversion runs inside the `with open(...)` block: "
+                   "the file is created / truncated first, so a job whose "
+                   "conversion raises leaves an empty .puml and destroys a "
+                   "good one from an earlier run" if bad else
+                   "pv_to_puml_string(...) dominates the open()"))
